@@ -365,9 +365,9 @@ def c16_select_orders_unsorted_queue(ctx, v):
                 if r == z3.sat:
                     v.sat += 1
                     ev = lambda x: m.eval(x, model_completion=True).as_long()
-                    v.fail("queue of %d in arrival order: %s" % (n, what),
+                    L.fail_structural(v, o, "queue of %d in arrival order: %s" % (n, what),
                            dict(batch_size=ev(batch.bv), queue=[dict(id=ev(ids[i].bv), status=["Queued", "Fetching", "Fetched", "Failed"][ev(sts[i].discr.bv) % 4]) for i in range(n)],
-                                returned_ids=[ev(x.fields[1].bv) for x in sel]))
+                                returned_ids=[ev(x.fields[1].bv) for x in sel]), exprs=[bad])
                 elif r == z3.unsat:
                     v.unsat += 1
                 else:
